@@ -318,7 +318,7 @@ func (w *World) chanSend(fr *frame, c *Chan, v Value) {
 	if c == nil {
 		w.block(t, "send on nil channel", func() bool { return false })
 	}
-	w.yield(t, "chan send")
+	w.syncYield(t, c, "chan send")
 	if c.isClosed() {
 		w.rtPanic(fr, "send on closed channel")
 	}
@@ -343,7 +343,7 @@ func (w *World) chanRecv(fr *frame, c *Chan, commaOk bool, rt types.Type) Value 
 	if c == nil {
 		w.block(t, "receive from nil channel", func() bool { return false })
 	}
-	w.yield(t, "chan recv")
+	w.syncYield(t, c, "chan recv")
 	var v Value
 	ok := true
 	if !w.canRecv(c) {
@@ -405,7 +405,15 @@ func (w *World) selectOp(fr *frame, instr *ssa.Select) Value {
 		}
 		return r
 	}
-	w.yield(t, "select")
+	for i, k := range cases {
+		if k.c != nil {
+			if i == len(cases)-1 {
+				w.syncYield(t, k.c, "select")
+			} else {
+				w.touchOnly(t, k.c)
+			}
+		}
+	}
 	chosen := -1
 	rs := ready()
 	if len(rs) == 0 {
